@@ -1,6 +1,8 @@
 import KalignModel.Driver.Util
 import KalignModel.Driver.Dp
 import KalignModel.Model.Pipeline
+import KalignModel.Model.PipelineSoft
+import KalignModel.Driver.F32
 /-!
 Line-protocol op of the composed pipeline (system-level correspondence); the harness side is
 `harness/ops_pipe.c`.
@@ -12,6 +14,9 @@ Line-protocol op of the composed pipeline (system-level correspondence); the har
 Answer: `rc=0 len=<alnlen> <row>…` (rows of the non-empty inputs in input order) or `rc=1 len=-1`;
 `fault:<kind>` where the model reports behaviour the C code does not define (never seen).
 `kalign_model` is a model-side alias of the same op.
+
+`kalign_sys_soft …` same arguments and answers; the model side runs `kalignArrSoft` (all DP scores in the software binary32
+`SoftF32`, Model/PipelineSoft.lean), the harness side is the same `kalign()` call.
 -/
 namespace Kalign.Driver
 open Kalign Kalign.Pipeline
@@ -43,6 +48,31 @@ def opKalignSys : Op
     | _, _, _, _ => "bad-op"
   | _ => "bad-op"
 
-def pipelineOps : OpTable := [("kalign_sys", opKalignSys), ("kalign_model", opKalignSys)]
+def opKalignSysSoft : Op
+  | tyS :: gpo :: gpe :: tgpe :: seqs =>
+    match pInt? tyS, parseSoft? gpo, parseSoft? gpe, parseSoft? tgpe with
+    | some ty, some gpo, some gpe, some tgpe =>
+      if ty.natAbs > 100 ∨ tyS.length > 4 then "bad-op"
+      else if seqs.isEmpty ∨ seqs.length > 4000 ∨ !seqs.all pipeTokOk then "bad-op" else
+      match kalignArrSoft (seqs.map parseRes) ty gpo gpe tgpe with
+      | .ok rows =>
+        match rows with
+        | [] => "fault:norows"
+        | r :: _ =>
+          if rows.all (·.length == r.length) then
+            s!"rc=0 len={r.length}" ++ String.join (rows.map fun x => " " ++ (if x.isEmpty then "." else String.ofList x))
+          else "fault:ragged"
+      | .error .tooFew => "rc=1 len=-1"
+      | .error .alphabet => "rc=1 len=-1"
+      | .error .param => "rc=1 len=-1"
+      | .error .badByte => "fault:badByte"
+      | .error .tree => "fault:tree"
+      | .error .fault => "fault:align"
+      | .error .monitor => "fault:monitor"
+      | .error .fuel => "fault:fuel"
+    | _, _, _, _ => "bad-op"
+  | _ => "bad-op"
+
+def pipelineOps : OpTable := [("kalign_sys", opKalignSys), ("kalign_model", opKalignSys), ("kalign_sys_soft", opKalignSysSoft)]
 
 end Kalign.Driver
